@@ -154,6 +154,10 @@ def _work(spec):
                     raise RuntimeError(case[1])
                 res = pristine.run_in_child(_exec, (chk, case), chk.run_timeout)
                 if not (isinstance(res, tuple) and res and res[0] == "__exc__"):
+                    lg = (case.get("env") or {}).get("logging", "off")
+                    if lg != "off":
+                        res.fault("env_logging_" + lg)
+                    res["env"] = case.get("env")
                     if res["viol"]:
                         res["case"] = chk.resolve(case, res)
                     if want_sample:
